@@ -31,14 +31,17 @@ theorem sites_anchored :
 exactly the executed ones, followed by the one being executed right now (if any), followed by the ones still in the
 deque — so each is in exactly one of {executed, pending}, none is lost or duplicated (`submitted` has no duplicates),
 every executed call was executed by the scheduler thread (tid 0), and — because the equation is between *lists* — the
-execution order is the hand-over order, in particular per submitting thread. -/
+execution order is the hand-over order, in particular per submitting thread.  Submitters are the foreign threads
+(`by_ = i + 2`) and cooperative code running on the scheduler thread itself (`by_ = 0`, `Scheduler.callLater` called from
+inside a task's slice); the last two conjuncts say each submitter's calls are numbered 0, 1, 2, … in hand-over order. -/
 theorem calllater_once {threaded users progs} {s : State} (hr : Reachable threaded users progs s) :
     s.submitted = s.executed.map (·.1) ++ inflight s ++ s.calls ∧
     s.submitted.Nodup ∧
     (∀ p ∈ s.executed, p.2 = 0) ∧
-    (∀ i f, s.fs[i]? = some f → (s.submitted.filter (·.by_ = i + 2)).map (·.seq) = List.range f.nsub) :=
+    (∀ i f, s.fs[i]? = some f → (s.submitted.filter (·.by_ = i + 2)).map (·.seq) = List.range f.nsub) ∧
+    (s.submitted.filter (·.by_ = 0)).map (·.seq) = List.range s.snsub :=
   let h := reach_A hr
-  ⟨h.stream, h.nodup, h.onS, h.order⟩
+  ⟨h.stream, h.nodup, h.onS, h.order, h.order0⟩
 
 /-- per submitting thread: what has been executed is a prefix of what that thread submitted, in its order -/
 theorem calllater_order {threaded users progs} {s : State} (hr : Reachable threaded users progs s) (t : Tid) :
@@ -53,7 +56,8 @@ scheduler thread — anything except idling, the run loop itself, and a SyncTask
 def coopRunning (s : State) : Bool :=
   match s.s with
   | .userBody _ | .cycAppend _ | .stContains _ | .stFs _ _ | .rsPut _ | .rsPing _ | .cltPong _ | .cltPop _
-  | .cltCall _ _ | .usContains _ _ | .usFs _ _ _ => true
+  | .cltCall _ _ | .usContains _ _ | .usFs _ _ _ | .ucLock _ | .ucIsNone _ | .ucCreate _ | .ucContains _ _ | .ucFs _ _ _
+  | .ucUnlock _ | .ucAppend _ | .ucPing _ => true
   | _ => false
 
 /-- foreign thread `i` is inside `with scheduler.synchronized():` -/
@@ -118,7 +122,8 @@ theorem schedule_wake_kept {threaded users progs} {s s' : State} (hok : usersOk 
 empty, the event is set or some thread's very next action is the `Event.set()` of `break_idle`; (inline hub) if it is
 parked in `select` while the ready queue is not empty, the hub's pinger pipe is not empty or some thread's next action
 is the ping; (call-later) if the deque of calls is not empty, the CallLaterTask's pipe is not empty, or some thread's
-next action is `self._pinger.ping()`, or the CallLaterTask is inside its drain loop (it pops again before it waits).
+next action is `self._pinger.ping()` (a foreign thread's, or the scheduler thread's own when cooperative code hands
+over), or the CallLaterTask is inside its drain loop (it pops again before it waits).
 So the `CYCLE_MAXIMUM` polling time-out is never what makes pending work noticed. -/
 theorem wake_noticed {threaded users progs} {s : State} (hr : Reachable threaded users progs s) :
     (s.s = .idleWait → s.ready ≠ [] → s.event = true ∨ sigP s.h s.fs) ∧
@@ -126,6 +131,14 @@ theorem wake_noticed {threaded users progs} {s : State} (hr : Reachable threaded
     (s.calls ≠ [] → s.cltPipe > 0 ∨ pingP s.fs ∨ draining s.s = true) :=
   let h := reach_N hr
   ⟨h.evt, h.pip, h.cal⟩
+
+/-- **incoming_noticed.**  The select hub's own hand-over queue (`registerSelect`: `_incoming.put` then ping): if it is
+not empty, the hub's pinger pipe is not empty, or the scheduler thread's next action is that ping, or the hub runner
+(hub thread / scheduler thread in inline mode) is inside the loop that empties the queue — unless the runner died of
+the assertion `assert task not in tasks` (that this cannot happen is checked on the real runs, not proved). -/
+theorem incoming_noticed {threaded users progs} {s : State} (hr : Reachable threaded users progs s) :
+    s.incoming ≠ [] → s.hubPipe > 0 ∨ sPingOrDead s.s = true ∨ drainS s.s = true ∨ drainH s.h = true ∨ s.h = .crashed :=
+  reach_I hr
 
 /-- the hub mode is respected: with a threaded hub the scheduler thread never runs `_select`; with an inline hub
 there is no hub thread and the scheduler thread never waits on the event -/
@@ -262,5 +275,12 @@ example : usersOk [[.sched 1, .yieldF], []] := by
   | t + 2, h => cases h
 example : (runStrict (Handoff.init true [[.sched 1, .yieldF], []] [[.schedule 0]])
     [2, 2, 2, 2, 2, 0, 0, 0, 0, 0, 0, 0, 0, 0, 0, 0, 0, 0]).map (fun s => (s.ready, s.slices)) = some ([1], [0]) := by decide
+
+/-- hand-over from cooperative code and from a thread, interleaved: both executed, on the scheduler thread, in
+hand-over order; the CallLaterTask was created on the scheduler thread (direct branch of `schedule`) -/
+def witnessCoopCall : List Tid :=
+  [2, 2, 2, 2, 2, 0, 0, 0, 0, 0, 0, 0, 0, 0, 0, 0, 0, 0, 0, 0, 0, 0, 0, 0, 0, 3, 3, 3, 3, 3, 3, 0, 0, 0, 0, 0, 0, 0, 0]
+example : ((runStrict (Handoff.init false [[.callLater, .yieldF]] [[.schedule 0], [.callLater]]) witnessCoopCall).map
+    (fun s => (s.submitted, s.snsub))) = some ([⟨0, 0⟩, ⟨3, 0⟩], 1) := by decide
 
 end Pox.C07
